@@ -294,8 +294,8 @@ struct InLineIfTag {
     SizeT16            TrueLength{0};
     SizeT16            FalseOffset{0};
     SizeT16            FalseLength{0};
-    SizeT8             TrueTagsStartID{0};
-    SizeT8             FalseTagsStartID{0};
+    SizeT16            TrueTagsStartID{0};
+    SizeT16            FalseTagsStartID{0};
 };
 
 // LoopTagOptions -------------------------------------------
